@@ -386,7 +386,11 @@ class RemoveDeadCodeTransformer(Transformer):
         if condition == 'False':
             return else_body
 
-        has_elseif = bool(o.has_elseif and else_body and isinstance(else_body[0], ir.Conditional))
+        # The else-body can only be written as ELSE IF if it consists of a single block-IF
+        has_elseif = bool(
+            o.has_elseif and len(else_body) == 1 and
+            isinstance(else_body[0], ir.Conditional) and not else_body[0].inline
+        )
         return self._rebuild(o, tuple((condition,) + (body,) + (else_body,)), has_elseif=has_elseif)
 
     def visit_MultiConditional(self, o, **kwargs):
